@@ -92,6 +92,20 @@ def _known_pairs(missing, spurious):
     return m, sp, classes
 
 
+def _sub_before_event(decls, src, name):
+    """True if a subscription to (src, name) is declared before the event's own declaration in app src."""
+    app = None
+    sub_seen = False
+    for d in decls:
+        if d["k"] == "app":
+            app = d["name"]
+        elif d["k"] == "sub" and d["src"] == src and d["name"] == name:
+            sub_seen = True
+        elif d["k"] == "event" and app == src and d["name"] == name:
+            return sub_seen
+    return False
+
+
 def _judge(ctx, pid, scn, events, prints, want):
     verdict, diffs, rejects = collect(prints)
     traces = core.split_traces(events)
@@ -115,10 +129,33 @@ def _judge(ctx, pid, scn, events, prints, want):
                 else:
                     names = {n for n in names if not n.startswith(("Missing:", "Spurious:"))}
             else:
-                rest.append((kind, {"missing": w["missing"][:4], "spurious": w["spurious"][:4]}))
+                # known: an event endpoint first created by an earlier subscriber records no location
+                # for its own later declaration
+                subs, seen_sub = set(), set()
+                for d in by_id[t]["decls"]:
+                    if d["k"] == "sub":
+                        seen_sub.add((d["src"], d["name"]))
+                    elif d["k"] == "event":
+                        pass
+                missing = [x for x in w["missing"]]
+                keep = []
+                for x in missing:
+                    if x[1] == "ep" and (x[2], x[3]) in seen_sub and _sub_before_event(by_id[t]["decls"], x[2], x[3]):
+                        classes.add("event-created-by-subscriber-has-no-location")
+                    else:
+                        keep.append(x)
+                if keep or w["spurious"]:
+                    rest.append((kind, {"missing": keep[:4], "spurious": w["spurious"][:4]}))
+                    names = {n for n in names if not n.startswith("Loc:")} | {"Loc:" + x[1] for x in keep + list(w["spurious"])}
+                else:
+                    names = {n for n in names if not n.startswith("Loc:")}
         rep = {"family": "frontend", "scenario": by_id[t],
                "trace": [e for e in traces.get(t, []) if e["e"] != "decl"][:6]}
-        for cl in (classes if pid == "C02" else ()):
+        for cl in classes:
+            if (pid == "C08") != cl.startswith("event-created"):
+                continue
+            if pid not in ("C02", "C08"):
+                continue
             core.add_violation(ctx, pid + "/" + cl, "program %d: %s" % (t, cl), rep)
         if names:
             what = "program %d: %s; differences: %s" % (t, sorted(names), json.dumps(rest)[:900])
@@ -143,7 +180,12 @@ def check_c02(ctx):
 def check_c08(ctx):
     core.build_vh(ctx)
     mc = _mc(ctx)
-    scn = programs(ctx, 300 if ctx.quick() else 3000, seed_off=8)
+    scn = programs(ctx, 250 if ctx.quick() else 3000, seed_off=8)
+    # multi-file: the same partitions as C04 (re-opened applications and types in imported files)
+    _, scn2, _ = split_scenarios(ctx, 40 if ctx.quick() else 600, 9, 3)
+    for s in scn2:
+        s["id"] += len(scn)
+    scn = scn + scn2
     events, prints, nev = run_programs(ctx, scn)
     _judge(ctx, "C08", scn, events, prints, lambda n: n.startswith("Loc") or n in ("Rejected",))
     nloc = sum(len(e["facts"]) for e in events if e["e"] == "locs")
@@ -263,24 +305,28 @@ def apply_plan(decls, plan, chain):
     return out
 
 
-def check_c04(ctx):
-    quick = ctx.quick()
-    core.build_vh(ctx)
-    mc = _mc(ctx)
-    gen = core.generate(ctx, "FrontendGen", "GenFrontendSplit.cfg", num=90 if quick else 1200, depth=400,
-                        seed=ctx.seed * 100 + 4, timeout=2400)
+def split_scenarios(ctx, n, seed_off, maxplans):
+    gen = core.generate(ctx, "FrontendGen", "GenFrontendSplit.cfg", num=n, depth=400,
+                        seed=ctx.seed * 100 + seed_off, timeout=2400)
     scn, group = [], {}
-    nforms = 0
     for gi, g in enumerate(gen):
         nb = len(split_blocks(g["decls"]))
         plans = [[0] * nb] + [p for p in g["plans"] if any(p)]
-        plans = plans[:4 if quick else 7]
+        plans = plans[:maxplans]
         for pi, plan in enumerate(plans):
             sid = len(scn) + 1
             scn.append({"id": sid, "decls": apply_plan(g["decls"], plan, chain=(pi % 2 == 1)), "seed": ctx.seed,
                         "variants": 0, "text": False, "plan": plan, "program": gi})
             group.setdefault(gi, []).append(sid)
-            nforms += 1
+    return gen, scn, group
+
+
+def check_c04(ctx):
+    quick = ctx.quick()
+    core.build_vh(ctx)
+    mc = _mc(ctx)
+    gen, scn, group = split_scenarios(ctx, 90 if quick else 1200, 4, 4 if quick else 7)
+    nforms = len(scn)
     events, prints, nev = run_programs(ctx, scn)
     _judge(ctx, "C04", scn, events, prints,
            lambda n: n.startswith(("Missing:", "Spurious:")) or n in ("Rejected", "IllFormedProgram"))
